@@ -14,7 +14,7 @@
 EXTENDS Sem, Ast, Json
 
 Kinds == {"list", "dict", "set"}
-Conses == {"for", "compr", "dictcompr", "sortedkey", "minkey", "selfextend"}
+Conses == {"for", "compr", "dictcompr", "sortedkey", "minkey", "mapf", "filterf", "selfextend"}
 Vias == {"name", "alias", "box"}
 Exits == {"attempt", "attempt_outer", "exhaust", "break", "return", "error"}
 MutsOf(kind) ==
@@ -120,6 +120,8 @@ IterChunk(c) ==
         <<SExpr(ACallN(AVar("sorted"), <<AVar("xs")>>, <<ANamed("key", <<107, 101, 121>>, AVar("keyf"))>>))>>
     ELSE IF c.cons = "minkey" THEN
         <<SExpr(ACallN(AVar("min"), <<AVar("xs")>>, <<ANamed("key", <<107, 101, 121>>, AVar("keyf"))>>))>>
+    ELSE IF c.cons = "mapf" THEN <<SExpr(ACall(AVar("map"), <<AVar("keyf"), AVar("xs")>>))>>
+    ELSE IF c.cons = "filterf" THEN <<SExpr(ACall(AVar("filter"), <<AVar("keyf"), AVar("xs")>>))>>
     ELSE \* selfextend: the container consumed by a builtin that mutates the same container
         (IF c.kind = "list" THEN <<SExpr(AMCall(Path(c.via), "extend", <<AVar("xs")>>))>>
          ELSE <<SExpr(AMCall(Path(c.via), "update", <<AVar("xs")>>))>>)
@@ -134,7 +136,7 @@ Valid(c) ==
     /\ (c.cons # "for" => c.direct = FALSE)
     /\ (c.cons = "compr" => c.exit \in {"attempt", "exhaust", "error"} /\ c.depth <= 2)
     /\ (c.cons = "dictcompr" => c.exit \in {"attempt", "exhaust", "error"} /\ c.depth = 1)
-    /\ (c.cons \in {"sortedkey", "minkey", "selfextend"} => c.exit = "attempt" /\ c.depth = 1)
+    /\ (c.cons \in {"sortedkey", "minkey", "mapf", "filterf", "selfextend"} => c.exit = "attempt" /\ c.depth = 1)
     /\ (c.cons = "selfextend" => c.mut \in {"extend", "update", "supdate"})
     /\ (c.kind = "set" => c.cons # "dictcompr" \/ TRUE)
     /\ (c.exit = "attempt_outer" => c.depth >= 2)
